@@ -13,9 +13,7 @@ TRUSTED_BASE = ["harness/detsched.py (deterministic scheduler), harness/engine_c
 def run(ctx):
     engine_corr.campaign(ctx, {"C04"})
     planlevel.plan_campaign(ctx, {"C04"})
-    try:
-        import prune_corr, queues_corr  # delivered by the Base/Topo, Cache/Prune work
-        prune_corr.run_prune(ctx)
-        queues_corr.run_queues(ctx)
-    except ImportError:
-        ctx.notes["prune_queue_correspondence"] = "not yet integrated"
+    import prune_corr
+    import queues_corr
+    prune_corr.run_prune(ctx)       # real prune_plan / prune_source_literals vs Cache/Prune.v (exact node order + keyed edges)
+    queues_corr.run_queues(ctx)     # real RandomQueue / PriorityQueue / deque op sequences vs Engine/Queues.v
